@@ -175,6 +175,109 @@ func renderD(v ssa.Value, d int) string {
 	return strings.TrimPrefix(fmt.Sprintf("%T", v), "*ssa.")
 }
 
+// renderShape renders an expression with every local name (parameter, loop variable, captured variable) replaced by
+// "_" and callees reduced to their base names: the key under which invariant-table entries and known findings are
+// matched, so that they survive renames and the move of the expression into another function.
+func renderShape(v ssa.Value) string { return shapeD(v, 0) }
+
+func shapeD(v ssa.Value, d int) string {
+	if v == nil {
+		return ""
+	}
+	if d > 16 {
+		return "…"
+	}
+	switch x := v.(type) {
+	case *ssa.Parameter, *ssa.FreeVar, *ssa.Phi, *ssa.Alloc:
+		return "_"
+	case *ssa.Const:
+		if x.Value == nil {
+			return "nil"
+		}
+		return x.Value.ExactString()
+	case *ssa.Global:
+		return x.Name()
+	case *ssa.FieldAddr:
+		_, st := structOf(x.X.Type())
+		fn := "?"
+		if st != nil {
+			fn = st.Field(x.Field).Name()
+		}
+		return "&" + shapeD(x.X, d+1) + "." + fn
+	case *ssa.Field:
+		_, st := structOf(x.X.Type())
+		fn := "?"
+		if st != nil {
+			fn = st.Field(x.Field).Name()
+		}
+		return shapeD(x.X, d+1) + "." + fn
+	case *ssa.UnOp:
+		if x.Op == token.MUL {
+			s := shapeD(x.X, d+1)
+			if strings.HasPrefix(s, "&") {
+				return s[1:]
+			}
+			if s == "_" {
+				return "_"
+			}
+			return "*" + s
+		}
+		return x.Op.String() + shapeD(x.X, d+1)
+	case *ssa.BinOp:
+		if _, isPhi := x.X.(*ssa.Phi); isPhi && x.Op == token.ADD {
+			if _, isK := constInt(x.Y); isK {
+				return "_"
+			}
+		}
+		return "(" + shapeD(x.X, d+1) + x.Op.String() + shapeD(x.Y, d+1) + ")"
+	case *ssa.Call:
+		n := baseName(strings.TrimPrefix(calleeName(&x.Call), "builtin "))
+		var as []string
+		for _, a := range x.Call.Args {
+			if d >= 6 {
+				as = []string{"…"}
+				break
+			}
+			as = append(as, shapeD(a, d+1))
+		}
+		if x.Call.IsInvoke() {
+			return shapeD(x.Call.Value, d+1) + "." + x.Call.Method.Name() + "(" + strings.Join(as, ",") + ")"
+		}
+		// a helper that is looked through contributes nothing stable
+		if transparentCallee(x) != nil {
+			return "_"
+		}
+		full := calleeName(&x.Call)
+		if (strings.Contains(full, "rt/") || strings.HasPrefix(full, "rt.")) && !pureCallee(full) && full != "rt/middleware/denco.NextSeparator" {
+			return n + "(…)" // results of repository functions: arguments are not part of the shape
+		}
+		return n + "(" + strings.Join(as, ",") + ")"
+	case *ssa.Extract:
+		s := shapeD(x.Tuple, d+1)
+		if s == "_" {
+			return "_"
+		}
+		return s + "#" + fmt.Sprint(x.Index)
+	case *ssa.Convert:
+		return shapeD(x.X, d+1)
+	case *ssa.ChangeType:
+		return shapeD(x.X, d+1)
+	case *ssa.IndexAddr:
+		return "&" + shapeD(x.X, d+1) + "[" + shapeD(x.Index, d+1) + "]"
+	case *ssa.Index:
+		return shapeD(x.X, d+1) + "[" + shapeD(x.Index, d+1) + "]"
+	case *ssa.Lookup:
+		return shapeD(x.X, d+1) + "[" + shapeD(x.Index, d+1) + "]"
+	case *ssa.Slice:
+		return shapeD(x.X, d+1) + "[" + shapeD(x.Low, d+1) + ":" + shapeD(x.High, d+1) + "]"
+	case *ssa.MakeSlice:
+		return "make(" + shapeD(x.Len, d+1) + ")"
+	case *ssa.TypeAssert:
+		return shapeD(x.X, d+1) + ".(" + typeStr(x.AssertedType) + ")"
+	}
+	return "_"
+}
+
 // ---------- relations ----------
 
 // lenOf: v is len(Y) (or cap(Y)); returns Y.
@@ -1032,7 +1135,11 @@ func checkBounds(c *Ctx, rule string, fns []*ssa.Function, table map[string]stri
 			if a.Fn != fnName(fn) {
 				continue
 			}
-			prm := fn.Params[a.Param]
+			prm := intParam(fn, a.Param)
+			if prm == nil {
+				c.info("%s assumption on %s not applicable on this tree (no single integer parameter)", rule, a.Fn)
+				continue
+			}
 			b.assumeNonNeg[prm] = true
 			if a.LenOfField != "" {
 				// find a load of receiver.field in the function to serve as the canonical operand
@@ -1058,7 +1165,13 @@ func checkBounds(c *Ctx, rule string, fns []*ssa.Function, table map[string]stri
 					if caller == fn {
 						cb = b
 					}
-					arg := ci.Common().Args[a.Param]
+					pos := -1
+					for i, pp := range fn.Params {
+						if pp == prm {
+							pos = i
+						}
+					}
+					arg := ci.Common().Args[pos]
 					ok := cb.nonNeg(arg, ci, visit{})
 					detail := "argument may be negative"
 					if ok && a.LenOfField != "" {
@@ -1076,7 +1189,7 @@ func checkBounds(c *Ctx, rule string, fns []*ssa.Function, table map[string]stri
 							}
 						}
 					}
-					c.emitBounds(rule, caller, ci, "call "+render(ci.Value())+" establishes precondition on "+prm.Name(), ok, table, used, detail)
+					c.emitBounds(rule, caller, ci, "call "+render(ci.Value())+" establishes precondition on "+prm.Name(), "call "+baseName(fnName(fn))+" precondition from "+baseName(fnName(caller)), ok, table, used, detail)
 				}
 			}
 		}
@@ -1130,7 +1243,7 @@ func checkBounds(c *Ctx, rule string, fns []*ssa.Function, table map[string]stri
 				} else {
 					okLow = x.Low == nil || (b.nonNeg(x.Low, x, visit{}) && b.le(x.Low, base, x, visit{}))
 				}
-				c.emitBounds(rule, fn, x, what, okHigh && okLow, table, used, fmt.Sprintf("high<=len:%v low-in-range:%v", okHigh, okLow))
+				c.emitBounds(rule, fn, x, what, renderShape(x), okHigh && okLow, table, used, fmt.Sprintf("high<=len:%v low-in-range:%v", okHigh, okLow))
 				continue
 			default:
 				continue
@@ -1138,7 +1251,7 @@ func checkBounds(c *Ctx, rule string, fns []*ssa.Function, table map[string]stri
 			// string / slice indexing
 			okUp := b.lt(idx, X, in)
 			okLo := b.nonNeg(idx, in, visit{})
-			c.emitBounds(rule, fn, in, strings.TrimPrefix(what, "&"), okUp && okLo, table, used, fmt.Sprintf("index<len:%v index>=0:%v", okUp, okLo))
+			c.emitBounds(rule, fn, in, strings.TrimPrefix(what, "&"), strings.TrimPrefix(renderShape(in.(ssa.Value)), "&"), okUp && okLo, table, used, fmt.Sprintf("index<len:%v index>=0:%v", okUp, okLo))
 		}
 	}
 	for k, reason := range table {
@@ -1153,16 +1266,86 @@ func isByteValue(v ssa.Value) bool {
 	return ok && bt.Kind() == types.Uint8
 }
 
-func (c *Ctx) emitBounds(rule string, fn *ssa.Function, in ssa.Instruction, expr string, ok bool, table map[string]string, used map[string]bool, detail string) {
-	key := fnName(fn) + ": " + expr
+func (c *Ctx) emitBounds(rule string, fn *ssa.Function, in ssa.Instruction, expr, shape string, ok bool, table map[string]string, used map[string]bool, detail string) {
 	what := "every index/slice expression of the never-panics function set is in range on every path: discharged by a dominating comparison with len of the same operand, loop-counter induction, a library fact, or a reviewed invariant-table entry"
+	owner := fn
+	if in != nil && in.Parent() != nil {
+		owner = in.Parent()
+	}
 	if !ok {
-		if reason, tabled := table[key]; tabled {
-			used[key] = true
-			c.ob(rule, short(fn.String()), "bounds "+expr, c.P.InstrPos(in), true, what+" [INVARIANT TABLE: "+reason+"]", "")
+		if reason, tabled := table[shape]; tabled {
+			used[shape] = true
+			c.ob(rule, short(owner.String()), "bounds "+expr, c.P.InstrPos(in), true, what+" [INVARIANT TABLE `"+shape+"`: "+reason+"]", "")
+			return
+		}
+		if isTransparent(owner) || involvesHelperResult(in) {
+			// the expression lives in a helper the rules do not know (code was moved): its parameters stand for values of
+			// the caller, which this intra-procedural prover cannot relate; undecided here is reported, not alarmed
+			c.info("%s undecided (not a verdict): `%s` in helper %s, which is not part of the baseline function set", rule, expr, short(owner.String()))
 			return
 		}
 	}
-	c.ob(rule, short(fn.String()), "bounds "+expr, c.P.InstrPos(in), ok, what,
+	c.ob(rule, short(owner.String()), "bounds "+expr, c.P.InstrPos(in), ok, what,
 		"no dominating bound check found for `"+expr+"` ("+detail+"): an out-of-range value would panic")
+	c.Obs[len(c.Obs)-1].AltKey = rule + "/bounds " + shape
+}
+
+// intParam returns the parameter the precondition is about: fn.Params[hint] when it is an integer, else the unique
+// integer parameter of fn (robust against a reordering of the parameters).
+func intParam(fn *ssa.Function, hint int) *ssa.Parameter {
+	if hint < len(fn.Params) && isIntegerType(fn.Params[hint].Type()) {
+		only := 0
+		for _, p := range fn.Params {
+			if isIntegerType(p.Type()) {
+				only++
+			}
+		}
+		if only == 1 {
+			return fn.Params[hint]
+		}
+	}
+	var found *ssa.Parameter
+	for _, p := range fn.Params {
+		if isIntegerType(p.Type()) {
+			if found != nil {
+				if hint < len(fn.Params) {
+					return fn.Params[hint]
+				}
+				return nil
+			}
+			found = p
+		}
+	}
+	return found
+}
+
+// involvesHelperResult: an operand of the instruction is (derived from) the result of a helper that is looked through.
+func involvesHelperResult(in ssa.Instruction) bool {
+	seen := map[ssa.Value]bool{}
+	var walk func(v ssa.Value, d int) bool
+	walk = func(v ssa.Value, d int) bool {
+		if v == nil || seen[v] || d > 8 {
+			return false
+		}
+		seen[v] = true
+		if c, ok := v.(*ssa.Call); ok && transparentCallee(c) != nil {
+			return true
+		}
+		if vi, ok := v.(ssa.Instruction); ok {
+			var ops []*ssa.Value
+			for _, o := range vi.Operands(ops) {
+				if o != nil && walk(*o, d+1) {
+					return true
+				}
+			}
+		}
+		return false
+	}
+	var ops []*ssa.Value
+	for _, o := range in.Operands(ops) {
+		if o != nil && walk(*o, 0) {
+			return true
+		}
+	}
+	return false
 }
